@@ -3,6 +3,7 @@ package main
 // One path execution: path condition, decisions, obligations, violations.
 
 import (
+	"time"
 	"fmt"
 	"sort"
 	"strconv"
@@ -69,6 +70,7 @@ type CoverSample struct {
 }
 
 type Run struct {
+	deadline time.Time
 	eng     *Engine
 	harness string
 	ctx     *TermCtx
@@ -150,6 +152,9 @@ func (r *Run) solve(extra ...*Term) (string, *Model) {
 			}
 		}
 		return "sat", r.concrete
+	}
+	if !r.deadline.IsZero() && time.Now().After(r.deadline) {
+		r.cut("time budget exhausted inside a path", false)
 	}
 	if r.sess == nil {
 		r.sess = r.solver.openSession()
